@@ -174,7 +174,7 @@ def units(prop):
         main_load_unit(prop),
         parse_repository_unit(prop),
         instantiate_backend_unit(prop),
-    ] + cmd_handler_units(prop)
+    ] + cmd_handler_units(prop) + [main_run_unit(prop)] + read_config_units(prop)
 
 
 # ------------------------------------------------------------------ config.Config.apply_known: the option table of the file
@@ -745,3 +745,143 @@ def cmd_handler_post(prop, label, action):
 def cmd_handler_units(prop, only=None):
     return [Unit(f'{prop}.cmd_handler[{label}]', MAIN_PY, '_cmd_handler', cmd_handler_setup(action, B, rx), cmd_handler_post(prop, label, action), prop=prop)
             for label, action, B, rx in _cmd_cases() if only is None or action in only]
+
+
+# ------------------------------------------------------------------ main(): a failed command is a failed process
+def _runs_command(stmt):
+    return any(isinstance(n, ast.Name) and n.id == '_cmd_handler' for n in ast.walk(stmt))
+
+
+def main_run_setup(b):
+    from specs import shared
+    b.bind('exceptions', shared.EXCEPTIONS)
+    for name in ('backend_type', 'connection_string', 'args', 'custom_settings'):
+        b.bind(name, Obj(f'<{name}>'))
+    b.bind('logger', Obj('logger', **{n: Model(n, lambda i, s, a, k: iter([(s, None)])) for n in ('debug', 'info', 'warning', 'error', 'exception', 'critical')}))
+    coro = Obj('<coroutine _cmd_handler>')
+    b.bind('_cmd_handler', Model('_cmd_handler', lambda i, s, a, k: iter([(s, coro)])))
+
+    def run(interp, st, args, kwargs):
+        if not args or args[0] is not coro:
+            raise sym.Unsupported('asyncio.run of something else')
+        for cls in ('ReplicatError', 'DecryptionError', 'OSError', 'AnyError'):
+            bad = st.copy()
+            bad.emit('command_failed', exc=cls)
+            yield bad, Raised(Exc(cls))
+        st.emit('command_succeeded')
+        yield st, None
+
+    b.bind('asyncio', Obj('asyncio', run=Model('asyncio.run', run)))
+
+    def exit_with(default):
+        def m(interp, st, args, kwargs):
+            status = kwargs.get('status', args[0] if args else default)
+            st.emit('process_exit', status=status)
+            yield st, Raised(Exc('SystemExit'))
+        return m
+
+    parser = Obj('main_parser', exit=Model('parser.exit', exit_with(0)), prog='replicat',
+                 error=Model('parser.error', lambda i, s, a, k: (s.emit('process_exit', status=2), iter([(s, Raised(Exc('SystemExit')))]))[1]))
+    parser._lenient = True
+    b.bind('main_parser', parser)
+    b.bind('sys', Obj('sys', exit=Model('sys.exit', exit_with(0)), stderr=Obj('stderr'), stdout=Obj('stdout')))
+    b.bind('print', Model('print', lambda i, s, a, k: iter([(s, None)])))
+
+
+def main_run_post(prop):
+    def post(res):
+        n = 0
+        for p in res.paths:
+            failed = p.events('command_failed')
+            exits = p.events('process_exit')
+            if failed:
+                n += 1
+                status = exits[-1].data['status'] if exits else None
+                nonzero = bool(exits) and not (status is None or status == 0 or status is False)
+                if exits and not isinstance(status, (int, str, type(None), bool)):
+                    raise sym.Unsupported('exit status is not a literal')
+                # a command that failed (corrupted object, wrong password, backend error) never ends as a successful process: the
+                # exception reaches the interpreter (traceback, status 1) or the process exits with a non-zero status
+                ok = p.kind == 'raise' and (p.value.cls != 'SystemExit' or nonzero)
+                res.oblige(p, f'{prop}.main_run.failed_command_is_a_failed_process', z3.BoolVal(bool(ok)),
+                           meta={'exception': failed[0].data['exc'], 'exit_status': repr(status)})
+        res.oblige([], f'{prop}.main_run.failure_paths_checked', z3.BoolVal(n >= 3))
+    return post
+
+
+def main_run_unit(prop):
+    return Unit(f'{prop}.main_run', MAIN_PY, 'main', main_run_setup, main_run_post(prop), stmt=_runs_command, prop=prop)
+
+
+# ------------------------------------------------------------------ read_config: the file source (profile over the default section)
+def read_config_setup(variant):
+    def setup(b):
+        from specs import shared
+        b.bind('exceptions', shared.EXCEPTIONS)
+        mk = b.st.new_py
+        b.bind('path', Obj('<config path>'))
+        b.bind('profile', {'defaults_only': None, 'profile': 'prof', 'unknown_profile': 'nope', 'invalid_toml': None, 'unreadable': None}[variant])
+        b.file_text = sym.const(STR, 'file_text')
+        b.D = {'a': Obj('<default a>'), 'b': Obj('<default b>')}
+        b.P = {'b': Obj('<profile b>'), 'c': Obj('<profile c>')}
+        section_name = source.module_assign(CONFIG_PY, 'DEFAULTS_SECTION').value
+        b.section_name = section_name
+
+        def read_text(interp, st, args, kwargs):
+            st.emit('read_text', args=list(args), kwargs=dict(kwargs))
+            if variant == 'unreadable':
+                yield st, Raised(Exc('FileNotFoundError'))
+            else:
+                yield st, b.file_text
+
+        def path_ctor(interp, st, args, kwargs):
+            st.emit('Path', arg=args[0] if args else None)
+            yield st, Obj('<Path(path)>', read_text=Model('read_text', read_text))
+
+        def loads(interp, st, args, kwargs):
+            st.emit('toml_loads', text=args[0] if args else None)
+            if variant == 'invalid_toml':
+                yield st, Raised(Exc('TOMLDecodeError'))
+            else:
+                mk2 = st.new_py
+                yield st, mk2('dict', {section_name: mk2('dict', dict(b.D)), 'prof': mk2('dict', dict(b.P)), 'other': mk2('dict', {'a': Obj('<other a>')})})
+
+        b.bind('Path', Model('Path', path_ctor))
+        from vf.interp import ExcClass
+        b.bind('compat', Obj('compat', toml=Obj('toml', loads=Model('toml.loads', loads), TOMLDecodeError=ExcClass('TOMLDecodeError'))))
+    return setup
+
+
+def read_config_post(prop, variant):
+    def post(res):
+        b = res.builder
+        for p in res.paths:
+            rt = p.events('read_text')
+            enc = rt[0].data['kwargs'].get('encoding', rt[0].data['args'][1] if rt and len(rt[0].data['args']) > 1 else None) if rt else None
+            okenc = len(rt) == 1 and isinstance(enc, str) and enc.lower().replace('_', '-') in ('utf-8', 'utf8')
+            # the file means the same bytes -> text in every process locale (the CLI and the environment do): decoded as UTF-8, explicitly
+            res.oblige(p, f'{prop}.read_config[{variant}].file_is_decoded_as_utf8_whatever_the_locale', z3.BoolVal(bool(okenc)))
+            if variant == 'unreadable':
+                res.oblige(p, f'{prop}.read_config[{variant}].missing_file_is_reported', z3.BoolVal(p.kind == 'raise' and p.value.cls == 'FileNotFoundError'))
+                continue
+            tl = p.events('toml_loads')
+            oktext = len(tl) == 1 and tl[0].data['text'] is not None
+            # top-level options of the file form the default section (parsed under a synthetic header)
+            res.oblige(p, f'{prop}.read_config[{variant}].top_level_options_are_the_default_section', z3.BoolVal(False) if not oktext else
+                       sym.lift(tl[0].data['text'], STR).z == z3.Concat(z3.StringVal(f'[{b.section_name}]\n'), b.file_text.z))
+            if variant == 'invalid_toml':
+                res.oblige(p, f'{prop}.read_config[{variant}].invalid_file_is_an_invalid_config_error', z3.BoolVal(p.kind == 'raise' and p.value.cls == 'InvalidConfig'))
+            elif variant == 'unknown_profile':
+                res.oblige(p, f'{prop}.read_config[{variant}].unknown_profile_is_a_lookup_error', z3.BoolVal(p.kind == 'raise' and p.value.cls == 'LookupError'))
+            else:
+                d = res.interp.deref(p.st, ops.resolve(p.st, p.value)) if p.kind == 'return' else None
+                want = dict(b.D) if variant == 'defaults_only' else {'a': b.D['a'], 'b': b.P['b'], 'c': b.P['c']}
+                ok = isinstance(d, dict) and set(d) == set(want) and all(d[k] is want[k] for k in want)
+                # the selected profile over the default section, key by key; other profiles contribute nothing
+                res.oblige(p, f'{prop}.read_config[{variant}].profile_over_default_section', z3.BoolVal(bool(ok)))
+    return post
+
+
+def read_config_units(prop):
+    return [Unit(f'{prop}.read_config[{v}]', CONFIG_PY, 'read_config', read_config_setup(v), read_config_post(prop, v), prop=prop)
+            for v in ('defaults_only', 'profile', 'unknown_profile', 'invalid_toml', 'unreadable')]
